@@ -540,6 +540,27 @@ func (w *World) recursionRule(r *Report, root *ssa.Function, reach map[*ssa.Func
 				dfs(f)
 			}
 		}
+		// a function on the cycle that allocates in proportion to the bytes it was given does so at every
+		// level of nesting: with n levels of k bytes each the total is quadratic in the frame size
+		for _, f := range comp {
+			fi := w.ssaFuncInfo(f)
+			if fi == nil {
+				continue
+			}
+			fs := w.Interpret(fi, "decode")
+			if fs == nil {
+				continue
+			}
+			for _, a := range fs.Allocs {
+				if a.Size == nil || a.Fn != fi.Key {
+					continue
+				}
+				// any size that is not a constant comes from the input here: its length, a field read from it
+				if !a.Size.IsConst() {
+					r.Fail(VViolation, "recursion", ssaFuncKey(w, f), "alloc:"+normSite(a.Text), w.Pos(a.Pos), fmt.Sprintf("%s allocates %v bytes — in proportion to its input — and lies on a cycle of the decode call graph: a frame that nests this kind k deep costs k such allocations, all live until the recursion unwinds, so memory grows with the square of the frame size", ssaFuncKey(w, f), a.Size))
+				}
+			}
+		}
 		sort.Strings(notes)
 		if !cyc {
 			r.OK("recursion", name, "", "-", "every cycle passes a strictly shorter input: "+strings.Join(notes, "; "), true)
